@@ -184,6 +184,8 @@ def match_finding(kf, opname, kind, loc, site, vars=()):
             continue
         if not all(c in (loc + " " + site) for c in f["contains"]):
             continue
+        if f.get("location_re") and not re.search(f["location_re"], loc):
+            continue
         only = f.get("expr_params_only")
         if only is not None:
             params = {re.sub(r"_\d+$", "", v) for v in vars}
